@@ -38,7 +38,8 @@ TRUSTED = ['Coq 8.16.1 kernel (no native_compute); translate/py2coq.py + transla
            'correspondence harness harness/parts/tags_blk.py']
 ASSUMPTIONS = {
     'C01': ['Type 3: the tag serves the Nbr blocks per read it declares and accepts min(Nbw, 13) blocks per write '
-            '(13 = what a 255 byte FeliCa frame can carry); SENSF_RES carries system code 12FCh',
+            '(13 = what a 255 byte FeliCa frame can carry); the switch to the NDEF system by Polling(12FCh) on '
+            'multi-system cards is outside the model (exercised on the simulator, frames compared modulo the IDm)',
             'Type 4: ISO-DEP is a reliable APDU channel (property C12); MLe >= NLEN field size (the specification '
             'demands MLe >= 15); READ/UPDATE BINARY offsets are plain 16 bit offsets (no ODO), so the usable '
             'capacity is limited to 65536 - nlen_size',
@@ -101,14 +102,18 @@ def t3_make(cfg):
                                  cfg['ln'], cfg.get('rfu', 0), cfg.get('badsum', False))]
     body = bytes.fromhex(cfg['body'])
     blocks += [body[i:i + 16] for i in range(0, len(body), 16)]
-    return SimT3Tag(blocks, max_read=cfg['maxr'], max_write=cfg['maxw'], rw_service=cfg['rw'])
+    sysblocks = {0x88: bytes.fromhex(cfg['mc'])} if cfg.get('mc') else None
+    return SimT3Tag(blocks, pmm=bytes.fromhex(cfg['pmm']) if cfg.get('pmm') else None, max_read=cfg['maxr'],
+                    max_write=cfg['maxw'], rw_service=cfg['rw'], sys_in_sensf=not cfg.get('nosys'),
+                    systems=tuple(cfg.get('systems') or (0x12FC,)), sysblocks=sysblocks, lite=bool(cfg.get('lite')))
 
 
 def t3_wellformed(cfg):
     nphys = len(cfg['body']) // 32
     return (cfg['ver'] >> 4 == 1 and not cfg.get('badsum') and 1 <= cfg['nbr'] <= cfg['maxr'] and cfg['nbw'] >= 1 and
             min(cfg['nbw'], 13) <= cfg['maxw'] and cfg['nmaxb'] <= nphys and
-            cfg['writef'] == 0 and cfg['rwflag'] != 0 and cfg['rw'] and cfg['ln'] <= 16 * cfg['nmaxb'])
+            cfg['writef'] == 0 and cfg['rwflag'] != 0 and cfg['rw'] and cfg['ln'] <= 16 * cfg['nmaxb'] and
+            0x12FC in (cfg.get('systems') or (0x12FC,)))
 
 
 def t3_gen(rng, small=False):
@@ -180,7 +185,9 @@ def t3_real(cfg, data, cut, make=t3_make, session=T3Session):
         r = 'exc ' + exc_name(e)
     after = sim.memory()
     f1, x1 = observe(session(sim).activate())
-    line = ' | '.join([f0, r, ','.join(rec['frame'].hex() for rec in s.log), after.hex(), f1])
+    idm0 = getattr(sim, 'idm', None)      # multi-system card: frames carry the IDm of the NDEF system
+    frames = [(rec['frame'][:2] + bytes(idm0) + rec['frame'][10:]) if idm0 is not None else rec['frame'] for rec in s.log]
+    line = ' | '.join([f0, r, ','.join(f.hex() for f in frames), after.hex(), f1])
     return line, dict(f0=f0, x0=x0, r=r, log=s.log, before=before, after=after, f1=f1, x1=x1,
                       ncmd=len(s.frames) - nframes)
 
@@ -633,10 +640,156 @@ def run_format(ck, batch, cfg, wipe):
         mon_c03_t4(ck, cfg, 'format', wipe, d)
 
 
+# ------------------------------------------------------------------------------ histories on ONE tag object
+# Tag.ndef -> Tag.format(..) -> tag.ndef.octets = .. through the real base class code (src/nfc/tag/__init__.py).
+# Monitor only (format of Type 3 tags is not modelled): what the SAME tag object reports after format is what a
+# fresh activation reports; data beyond that capacity is refused before any command; data within it is written
+# inside the frame the new attribute block declares and read back by a fresh reader.
+def _quiet(fn):
+    import contextlib
+    import io
+    with contextlib.redirect_stdout(io.StringIO()):
+        return fn()
+
+
+def t3_write_attempts(sim, n0):
+    return [b for bl in sim.attempts[n0:] for b in bl]
+
+
+def run_history(ck, pid, kind, cfg, fmt, lengths):
+    case = dict(kind=kind, history=True, cfg=cfg, format=fmt, lengths=lengths)
+    for n in lengths:
+        if kind == 't4':
+            sim = t4_make(cfg)
+            s = T4Session(sim)
+            mem = lambda: sim.memory()          # noqa: E731
+        else:
+            sim = t3_make(cfg)
+            s = T3Session(sim)
+            mem = lambda: sim.memory()          # noqa: E731
+        tag = s.activate()
+        f0, x0 = observe(tag)
+        try:
+            st = _quiet(lambda: tag.format(**fmt))
+        except Exception as e:  # noqa
+            st = 'exc ' + exc_name(e)
+        ck.case((kind + '-history', json.dumps(cfg, sort_keys=True), json.dumps(fmt, sort_keys=True), n), st is True,
+                dict(kind=kind + '-history', format=fmt, status=str(st), datalen=n))
+        ck.count('%s-history-format-%s' % (kind, st))
+        if st is not True:
+            continue
+        fs, xs = observe(tag)                                        # the same object
+        if kind == 't4':
+            ff, xf = observe(T4Session(sim).activate())
+        else:
+            ff, xf = observe(T3Session(sim).activate())
+        data = bytes((11 * i + 5) & 255 for i in range(n))
+        c = dict(case, datalen=n)
+        if xf is None or xs is None:
+            if (xf is None) != (xs is None):
+                ck.violation(key_of(kind, 'history-ndef-differs'), 'after format the tag object reports %s, a fresh activation %s' % (fs[:30], ff[:30]), c)
+            continue
+        if pid == 'C01' and (xs['capacity'] != xf['capacity'] or xs['octets'] != xf['octets']):
+            ck.violation(key_of(kind, 'history-stale-ndef'),
+                         'after format the same tag object reports capacity %d / %d octets, a fresh activation %d / %d'
+                         % (xs['capacity'], len(xs['octets']), xf['capacity'], len(xf['octets'])), c)
+        cap = xf['capacity']
+        before = mem()
+        nfr = len(s.frames) if kind != 't4' else len(s.apdus)
+        natt = len(sim.attempts) if kind != 't4' else len(s.log)
+        try:
+            tag.ndef.octets = data
+            r = 'ok'
+        except Exception as e:  # noqa
+            r = 'exc ' + exc_name(e)
+        after = mem()
+        ncmd = (len(s.frames) if kind != 't4' else len(s.apdus)) - nfr
+        if pid == 'C01':
+            if n > cap:
+                if r != 'exc ValueError' or ncmd != 0 or before != after:
+                    ck.violation(key_of(kind, 'history-oversize-not-rejected'),
+                                 'after format the capacity is %d, writing %d bytes: %s after %d commands' % (cap, n, r, ncmd), c)
+            elif xf['writeable']:
+                f1, x1 = observe((T4Session if kind == 't4' else T3Session)(sim).activate())
+                if r != 'ok' or x1 is None or x1['octets'] != data or x1['capacity'] != cap:
+                    ck.violation(key_of(kind, 'history-readback-differs'),
+                                 'after format writing %d bytes (capacity %d): %s, fresh reader %s' % (n, cap, r, f1[:40]), c)
+        if pid == 'C03':
+            if kind == 't4':
+                d = dict(log=s.log[natt:], before=before, after=after)
+                mon_c03_t4(ck, cfg, 'history', n, d)
+            else:
+                a = sim.blocks[0]
+                nmaxb = a[3] << 8 | a[4]
+                beyond = sorted(set(b for b in t3_write_attempts(sim, natt) if b > nmaxb))
+                if beyond:
+                    ck.violation(key_of(kind, 'history-write-beyond-nmaxb'),
+                                 'after format Nmaxb is %d, writing %d bytes addressed block(s) %s' % (nmaxb, n, beyond[:6]), c)
+                lim = 16 * (nmaxb + 1)
+                if before[lim:] != after[lim:]:
+                    ck.violation(key_of(kind, 'history-bytes-changed-outside'), 'memory beyond block Nmaxb=%d changed' % nmaxb, c)
+
+
+def histories(ck, pid, quick):
+    import random
+    rng = random.Random(ck.seed * 7919 + 31)        # own stream: the main generator stays as it was
+    body = lambda k: bytes((3 * i + 1) & 255 for i in range(16 * k)).hex()   # noqa: E731
+    # generic Type 3 Tag whose attribute block announces more / fewer blocks than format() finds
+    for decl, phys in [(12, 6), (6, 12), (4, 4), (20, 3)] + [(rng.randrange(1, 30), rng.randrange(1, 30)) for _ in range(3 if quick else 30)]:
+        cfg = dict(ver=0x10, nbr=4, nbw=4, nmaxb=decl, writef=0, rwflag=1, rw=True, maxr=rng.choice([4, 12, 15]),
+                   maxw=rng.choice([4, 8, 13]), ln=0, body=body(phys))
+        ls = sorted({0, 16 * phys - 1, 16 * phys, 16 * phys + 1, 16 * min(decl, phys) + 1, 16 * max(decl, phys), 150})
+        for fmt in ({}, {'wipe': rng.randrange(256)}):
+            run_history(ck, pid, 't3', cfg, fmt, ls)
+    # FeliCa Lite: format() derives Nmaxb from the read/write permission bits of the MC block
+    for decl, k in [(13, 5), (5, 13), (13, 13), (8, 1)] + [(rng.randrange(1, 14), rng.randrange(1, 14)) for _ in range(3 if quick else 20)]:
+        rw = (1 << (k + 1)) - 1
+        mc = bytes([rw & 255, rw >> 8, 0xFF, rng.choice([0, 1])]) + bytes(12)
+        cfg = dict(ver=0x10, nbr=4, nbw=1, nmaxb=decl, writef=0, rwflag=1, rw=True, maxr=4, maxw=1, ln=0, body=body(13),
+                   pmm='00f0000000000000', lite=True, mc=mc.hex())
+        ls = sorted({0, 1, 16 * k - 1, 16 * k, 16 * k + 1, 16 * decl, 16 * decl + 1})
+        for fmt in ({}, {'wipe': rng.randrange(256)}):
+            run_history(ck, pid, 't3', cfg, fmt, ls)
+    # Type 4
+    for _ in range(6 if quick else 60):
+        cfg = t4_gen(rng, small=True)
+        if not t4_wellformed(cfg):
+            continue
+        cap = cfg['mfs'] - t4_nlen(cfg)
+        for fmt in ({}, {'wipe': rng.randrange(256)}):
+            run_history(ck, pid, 't4', cfg, fmt, sorted({0, 1, cap - 1, cap, cap + 1}))
+
+
+def multisystem(ck, pid, batch, quick):
+    """FeliCa cards with several systems (each system has its own IDm, system number in the top nibble): the reader
+    finds system 0 with the wildcard system code and has to switch to the NDEF system by Polling(12FCh)"""
+    import random
+    rng = random.Random(ck.seed * 7919 + 57)
+    cut = pid == 'C02'
+    variants = [dict(systems=[0x0003, 0x12FC]), dict(systems=[0x0003, 0x12FC], pmm='0120220427674eff'),
+                dict(systems=[0x12FC, 0x0003]), dict(systems=[0xFE00, 0x0003, 0x12FC]), dict(nosys=True)]
+    for v in variants:
+        for nbr, nbw in ((12, 8), (4, 1)):
+            cfg = dict(ver=0x10, nbr=nbr, nbw=nbw, nmaxb=20, writef=0, rwflag=1, rw=True, maxr=15, maxw=13,
+                       ln=rng.choice([0, 33]), body=rand_bytes(rng, 16 * 20).hex())
+            cfg.update(v)
+            for n in ([0, 47, 320] if cut else [0, 1, 47, 16 * nbr, 319, 320, 321]):
+                run_case(ck, pid, batch, 't3', cfg, rand_bytes(rng, n))
+    for _ in range(4 if quick else 60):
+        cfg = t3_gen(rng, small=True)
+        cfg.update(rng.choice(variants))
+        for n in rng.sample(t3_lengths(rng, 16 * cfg['nmaxb'], cfg), 3):
+            run_case(ck, pid, batch, 't3', cfg, rand_bytes(rng, n))
+    batch.flush()
+
+
 def replay(ck, pid, mr):
     case = json.load(open(ck.replay)).get('case', {})
     if not isinstance(case, dict) or case.get('kind') not in ('t3', 'emu', 't4'):
         return False
+    if case.get('history'):
+        run_history(ck, pid, case['kind'], case['cfg'], case.get('format') or {}, [case.get('datalen', 0)])
+        return True
     batch = Batch(ck, mr)
     if case.get('what') == 'format':
         run_format(ck, batch, case['cfg'], case.get('arg'))
@@ -654,6 +807,10 @@ def run(ck, pid, mr):
         return
     batch = Batch(ck, mr)
     cut = pid == 'C02'
+
+    multisystem(ck, pid, batch, quick)
+    if not cut:
+        histories(ck, pid, quick)
 
     # commands carrying the maximum number of blocks the tag announces (and the largest a frame can carry):
     # Nbr in {1,2,14,15} x Nbw in {1,2,12..15} x messages of exactly k*16-1, k*16, k*16+1 octets, old message of
